@@ -255,7 +255,8 @@ def replay_dl_cmd(es, n, history):
   return bad
 
 
-def differences(rec, seed, q, max_diff, L, with_history_list):
+def differences(rec, seed, q, max_diff, L, with_history_list,
+                aspects=('complete', 'relation')):
   pb, ec_util = _mods()
   Model = make_model(ec_util, q)
   rec.functions('paranoid_crypto.lib.ec_util:EcCurve.BatchDLOfDifferences')
@@ -299,6 +300,7 @@ def differences(rec, seed, q, max_diff, L, with_history_list):
     ds, ds_all = e.notes['ds'], e.notes['ds_all']
     res = p.value
     goals = [z3.BoolVal(len(res) == L)]
+    rgoals = []
     for i in range(min(L, len(res))):
       close = z3.Or([z3.And(ds[i].t != o.t, ds[i].t - o.t < max_diff,
                             o.t - ds[i].t < max_diff)
@@ -315,13 +317,39 @@ def differences(rec, seed, q, max_diff, L, with_history_list):
                          ds_all) > 1 else z3.BoolVal(False)
       goals.append(z3.Implies(close, flagged))
       goals.append(z3.Implies(flagged, loose))
-    r, m, _ = e.prove(z3.And(goals))
-    if r == 'proved':
-      rec.obligation('proved')
-    elif r == 'unknown':
-      rec.obligation('unknown', 'BatchDLOfDifferences')
-    else:
-      cexs.append(('flags', inputs_of(e, m)))
+      if res[i] is not None:
+        # the recorded relation "key - (x, y) = k * G" is true for key i and
+        # (x, y) is another artifact (C02); the text is captured through its
+        # format arguments, rendered as their positions
+        import re  # pylint: disable=g-import-not-at-top
+        fa = e.notes.get('format_args', [])
+        mt = re.match(r'key - \(([0-9a-f]+), ([0-9a-f]+)\) = (-?\d+) \* G$',
+                      str(res[i]))
+        ok = False
+        if mt:
+          ix, iy, il = int(mt.group(1), 16), int(mt.group(2), 16), int(
+              mt.group(3))
+          if True:
+            qx, qy, dl = (pysym.format_arg(e, ix), pysym.format_arg(e, iy),
+                          pysym.format_arg(e, il))
+            eq = z3.If(qy == 1, qx, q - qx)
+            rgoals.append((ds[i].t - eq - dl) % q == 0)
+            rgoals.append(z3.Or([(eq - o.t) % q == 0
+                                 for j, o in enumerate(ds_all) if j != i]))
+            ok = True
+        if not ok:
+          rgoals.append(z3.BoolVal(False))
+    for tag, gl in (('flags', goals), ('relation', rgoals)):
+      if (tag == 'flags' and 'complete' not in aspects) or (
+          tag == 'relation' and 'relation' not in aspects) or not gl:
+        continue
+      r, m, _ = e.prove(z3.And(gl))
+      if r == 'proved':
+        rec.obligation('proved')
+      elif r == 'unknown':
+        rec.obligation('unknown', 'BatchDLOfDifferences ' + tag)
+      else:
+        cexs.append((tag, inputs_of(e, m)))
     done += 1
   rec.sample(dict(q=q, max_diff=max_diff, keys=L, paths=done))
   rec.reach(1, 1 if done else 0)
@@ -332,11 +360,16 @@ def differences(rec, seed, q, max_diff, L, with_history_list):
     seen.add(tag.split(' ')[0])
     ds = [cex['d%d' % i] for i in range(L)]
     dh = cex.get('dh')
-    bad, detail = replay_diff(ds, dh, max_diff)
+    if tag == 'relation':
+      bad, detail = replay_relation(ds, dh, max_diff)
+    else:
+      bad, detail = replay_diff(ds, dh, max_diff)
     rec.replayed()
     rec.violation('ec_util.EcCurve.BatchDLOfDifferences', tag.split(' ')[0],
                   detail, dict(keys=ds, history=dh, max_diff=max_diff),
-                  dict(module='harness.props.c10', function='replay_diff_cmd',
+                  dict(module='harness.props.c10',
+                       function='replay_relation_cmd' if tag == 'relation'
+                       else 'replay_diff_cmd',
                        args=dict(ds=ds, dh=dh, max_diff=max_diff)), bad)
 
 
@@ -362,6 +395,44 @@ def replay_diff(ds, dh, max_diff):
             for w, g, l in zip(want, got, loose))
   return bad, 'flags %r, required %r for keys %r (+%r), max_diff %d' % (
       got, want, ds, dh, max_diff)
+
+
+def replay_relation(ds, dh, max_diff):
+  """Every relation text recorded by the real code on a real curve is true
+  for the key it is recorded for."""
+  import re  # pylint: disable=g-import-not-at-top
+  pb, ec_util = _mods()
+  c0 = ec_util.CURVE_FACTORY[2]
+  c = ec_util.EcCurve('replay', int(c0.a), int(c0.b), int(c0.mod),
+                      int(c0.g[0]), int(c0.g[1]), int(c0.n))
+  ds = [int(x) for x in ds]
+  for off in (0, 2**200 + 17):
+    pts = [c.Multiply(c.g, x + off) for x in ds]
+    other = [c.Multiply(c.g, int(dh) + off)] if dh is not None else None
+    try:
+      res = c.BatchDLOfDifferences(pts, other, int(max_diff))
+    except Exception as ex:  # pylint: disable=broad-except
+      return True, 'raised %r' % (ex,)
+    allp = pts + (other or [])
+    for i, r_ in enumerate(res):
+      if r_ is None:
+        continue
+      mt = re.match(r'key - \(([0-9a-f]+), ([0-9a-f]+)\) = (-?\d+) \* G$', r_)
+      if not mt:
+        return True, 'unparsable relation %r' % (r_,)
+      Q = (int(mt.group(1), 16), int(mt.group(2), 16))
+      k = int(mt.group(3))
+      if c.Subtract(pts[i], Q) != c.Multiply(c.g, k) or not any(
+          (int(a[0]), int(a[1])) == Q for j, a in enumerate(allp) if j != i):
+        return True, ('relation %r recorded for key %d (private keys %r + %r'
+                      ', offset %d) is false' % (r_, i, ds, dh, off))
+  return False, 'every recorded relation holds'
+
+
+def replay_relation_cmd(ds, dh, max_diff):
+  bad, detail = replay_relation(ds, dh, max_diff)
+  print(detail)
+  return bad
 
 
 def replay_diff_cmd(ds, dh, max_diff):
@@ -549,6 +620,28 @@ def extended(rec, seed, curve_id, shape, negative=False):
       bad, detail = replay_extended(cid_real, dreal)
       if bad:
         break
+    if not bad and shape == 'shift':
+      # the same multiplier position (counted from the bottom and from the
+      # top of the ladder) on every named curve, incl. orders whose length is
+      # not a multiple of 32 bits
+      jb = (mult.bit_length() - 1) // 8
+      jt = (q.bit_length() - 32) // 8 - jb
+      for cid_real, c_ in sorted(ec_util.CURVE_FACTORY.items()):
+        if c_ is None:
+          continue
+        top = (int(c_.n).bit_length() - 32) // 8
+        for j in sorted({jb, top - jt, top}):
+          if not 0 <= j <= top:
+            continue
+          d2 = cex['w'] << (8 * j)
+          d2 = -d2 if negative else d2
+          bad, detail = replay_extended(cid_real, d2)
+          rec.replayed()
+          if bad:
+            dreal = d2
+            break
+        if bad:
+          break
     rec.violation('ec_util.EcCurve.ExtendedBatchDL', tag.split(' ')[0],
                   detail, dict(d=dreal),
                   dict(module='harness.props.c10',
@@ -577,15 +670,30 @@ def replay_extended(curve_id, d):
       out.append(hit)
     return out
 
-  # concrete oracle: recompute the exponents of all_points from d
+  # concrete oracle: the documented multipliers give the points P * m^-1 and
+  # their exponents d * m^-1; the points the code hands over are looked up
+  # (a point that belongs to no documented multiplier has no small log)
   bits = q.bit_length()
   multipliers = [2**j for j in range(0, bits - 31, 8)] + [
       sum(2**(32 * i) for i in range(j)) for j in range(2, bits // 32 + 1)]
-  exps = [d * pow(m_, -1, q) % q for m_ in multipliers]
+  table = {}
+  for m_ in multipliers:
+    inv = pow(m_, -1, q)
+    pt = c.Multiply(P, inv)
+    table[(int(pt[0]), int(pt[1])) if pt != ec_util.INFINITY else None] = (
+        d * inv % q)
 
   def batch_dl(points, bound):
-    return [e_ if e_ < bound else (-(q - e_) if q - e_ < bound else None)
-            for e_ in exps[:len(points)]]
+    out = []
+    for pt in points:
+      key = None if pt == ec_util.INFINITY else (int(pt[0]), int(pt[1]))
+      e_ = table.get(key)
+      if e_ is None:
+        out.append(None)
+      else:
+        out.append(e_ if e_ < bound else (-(q - e_) if q - e_ < bound
+                                          else None))
+    return out
 
   orig = c.BatchDL
   c.BatchDL = batch_dl
@@ -639,6 +747,9 @@ def jobs(tier, seed):
   out.append(Job('diff_md3_hist', differences,
                  dict(q=65521, max_diff=3, L=2, with_history_list=True),
                  timeout=3000, cost=100))
+  out.append(Job('diff_md2_L3_hist', differences,
+                 dict(q=65521, max_diff=2, L=3, with_history_list=True),
+                 timeout=3000, cost=300))
   for qbits in ([2, 72] if not thorough else [2, 4, 5, 6, 17, 40, 72, 96]):
     for shape in ('shift', 'repeat'):
       if shape == 'repeat' and 20 < qbits < 64:
